@@ -159,6 +159,17 @@ def init_logger():
     LOG.addHandler(handler)
 
 
+def _untracked_in_parent(repo):
+    """Untracked (also ignored) files that the parent commit tracks."""
+    try:
+        parent = repo.head.commit.parents[0]
+    except (ValueError, IndexError):
+        return []
+    tracked = {i.path for i in parent.tree.traverse() if i.type == "blob"}
+    others = repo.git.ls_files("--others", "-z").split("\0")
+    return sorted(tracked.intersection(others))
+
+
 # #################### Perform initialization and validate assumptions ########
 def initialize():
     """Initialize arguments and output formats."""
@@ -225,6 +236,15 @@ def initialize():
         if repo.is_dirty():
             LOG.error(
                 "Current working directory is dirty and must be " "resolved"
+            )
+            valid = False
+        elif _untracked_in_parent(repo):
+            # checking out the parent with a hard reset would overwrite these
+            # files and returning to the current commit would then delete them
+            LOG.error(
+                "Untracked files would be overwritten by checking out the "
+                "parent commit and must be moved or removed: %s",
+                ", ".join(_untracked_in_parent(repo)),
             )
             valid = False
 
